@@ -53,14 +53,14 @@ def apply_edits(root, edits):
     return True
 
 
-def run_one(m, tier='quick'):
+def run_one(m, tier='quick', only=None):
     d, root = scratch_copy()
     try:
         if not apply_edits(root, m['edits']):
             return dict(id=m['id'], status='skipped', reason='patch does not apply to the current tree')
-        env = dict(os.environ, EVX_REPO=root)
+        env = dict(os.environ, EVX_REPO=root, EVX_NO_EXTRAS='1')
         res = {}
-        for pid in m['properties']:
+        for pid in ([only] if only else m['properties']):
             r = subprocess.run([sys.executable, os.path.join(HERE, 'check.py'), pid, '--no-evidence', '--tier', tier], env=env, capture_output=True, text=True)
             res[pid] = (r.returncode, r.stdout, r.stderr)
         expect = m.get('expect', 'violation')
